@@ -716,6 +716,12 @@ func (d *urlValuesDecoder) DecodeObject(param string, sm *openapi3.Serialization
 		}
 	}
 
+	if !found && len(val) == 0 && sm.Style == "form" && sm.Explode {
+		// An exploded form object shares the query with every other parameter:
+		// when none of the keys is a member of the object, the parameter is absent.
+		return nil, false, nil
+	}
+
 	return val, found, nil
 }
 
